@@ -298,6 +298,30 @@ pub fn drive_c15(out: &mut dyn std::io::Write, seed: u64, thorough: bool) {
             g.eq(out, &[0u8; 32], &[0u8; 8], 0, 0x0000_0003_0000_0003);
         }
     }
+    // equality: the four words of row d (counter low/high, stream id low/high) of the other state differ from this one by
+    // small ARITHMETIC deltas in every combination (a predicate may compare "distances" instead of words)
+    {
+        let deltas: [u32; 4] = [0, 1, 0xffff_ffff, 0x8000_0000];
+        for base in 0..(if thorough { 3 } else { 1 }) {
+            let key = rng.bytes(32);
+            let c0 = (rng.next() & 0x7fff_fff0_7fff_fff0) | 0x10_0000_0010;
+            let s0 = (rng.next() & 0x7fff_fff0_7fff_fff0) | 0x10_0000_0010;
+            for code in 0..256usize {
+                let ds = [deltas[code & 3], deltas[(code >> 2) & 3], deltas[(code >> 4) & 3], deltas[(code >> 6) & 3]];
+                if !thorough && ds.iter().filter(|d| **d != 0).count() > 2 {
+                    continue;
+                }
+                let w = |x: u64, lo: u32, hi: u32| -> u64 { ((x as u32).wrapping_add(lo) as u64) | ((((x >> 32) as u32).wrapping_add(hi) as u64) << 32) };
+                let (oc, os) = (w(c0, ds[0], ds[1]), w(s0, ds[2], ds[3]));
+                let nl = if (code + base) % 2 == 0 { 8 } else { 12 };
+                if let Some(mut g) = G::new(out, &key, &vec![0u8; nl], "eqgrid") {
+                    g.setp(out, 0, c0);
+                    g.setp(out, 1, s0);
+                    g.eq(out, &key, &vec![0u8; 20 - nl], oc, os);
+                }
+            }
+        }
+    }
     // equality: pairs differing in exactly one bit of one of the 12 key/nonce/counter words (and equal pairs)
     let words = if thorough { 3 } else { 1 };
     for rep in 0..words {
